@@ -34,7 +34,7 @@ m = {
         "enable": "go test -tags verif (the harness module /verif/harness replaces github.com/dominant-strategies/go-quai with /repo; every check is built with -tags verif)",
         "baseline_off_cmd": "cd /repo && GOFLAGS=-mod=mod go test -vet=off -count=1 -timeout 25m ./...",
         "source_commits": hook_commits,
-        "add_only": True,
+        "add_only": False,
     },
     "engines": [{"name": "rapid-harness", "path": "harness/", "serves_properties": [c["property_id"] for c in checks],
                  "kind_free_text": "Go test packages (pgregory.net/rapid v1.3.0 generators and state machines, exhaustive small-scope enumerations, native go fuzz targets in the thorough tier) driven and sharded by driver/check.py; an in-process prime+region+zone go-quai hierarchy (harness/sim) for history-based properties"}],
